@@ -600,7 +600,14 @@ pub fn eval_case_from_src(spec: &CtxSpec, src: &str) -> Option<Case> {
         inflight_write("case", &format!("compile\t{}", crate::sx::hex(src.as_bytes())));
     }
     note_input(&format!("compile src={src:?}"));
-    let ast = quietly(|| catch_unwind(|| cel_parser::Parser::new().parse(src))).ok()?.ok()?;
+    let ast = match quietly(|| catch_unwind(|| cel_parser::Parser::new().parse(src))) {
+        Ok(Ok(a)) => a,
+        // the real parser rejects (or panics on) this text: the case is NOT dropped - it becomes a
+        // `run` case, in which the model compiles the text itself; for a text that is really
+        // malformed both sides answer `compile-error`, for a valid text that a changed parser
+        // no longer accepts the two answers differ
+        _ => return Some(run_case(spec, src)),
+    };
     let mut c = Case::new("eval", format!("{} {}", spec.to_sx().to_text(), expr_to_sx(&ast).to_text()));
     c.src = Some(src.to_string());
     c.from_source = true;
